@@ -19,7 +19,7 @@ def boundary_cases(variant):
     """every op on every (initial word, operand[, operand]) combination of the boundary classes"""
     for wd in ("32", "64"):
         for w in BOUNDARY:
-            head = ["variant " + variant, "set%s %d" % (wd, w)]
+            head = ["set%s %d" % (wd, w)]
             zero = ["get"] + (["inc", "dec"] if wd == "32" else [])
             for op in zero:
                 yield head + [op + wd, "get" + wd]
@@ -46,7 +46,7 @@ def rand_operand(rng, mask):
 
 def random_case(rng, chk, variant, n):
     """a stateful op sequence; the generator follows the word only to aim compare-and-exchange at it"""
-    ops = ["variant " + variant]
+    ops = []
     w = {"32": 0, "64": 0}
     mask = {"32": M32, "64": M64}
     for _ in range(n):
@@ -146,18 +146,18 @@ def run(chk):
     fams = {}
     for v in VARIANTS:
         try:
-            fams[v] = diffrun.Family("atomics", ac.build_atomics(cfg, v))
+            fams[v] = ac.VFamily("atomics", ac.build_atomics(cfg, v), v)
         except pv.BuildError as e:
             chk.violation(str(e), "C04 harness for the %s back-end does not build against the current source" % v, no_input=True, suffix="txt")
     if driver_ok:
         for v, fam in fams.items():
-            cases = [c for c in pv.load_corpus("C04") if c and c[0] == "variant " + v]
+            cases = ac.corpus_for("C04", v)
             bnd = list(boundary_cases(v))
             rnd = [random_case(rng, chk, v, 10) for _ in range(nrand)]
             allc = cases + bnd + rnd
-            op_evals += sum(len(c) - 1 for c in allc)
+            op_evals += sum(len(c) for c in allc)
             chk.bump("boundary-cases:" + v, len(bnd))
-            f, c, t = diffrun.campaign(chk, fam, allc, proof_ok, detail, signature_of, "C04 " + v, batch=3000)
+            f, c, t = diffrun.campaign(chk, fam, allc, proof_ok, detail, signature_of, "C04 variant=" + v, batch=3000)
             found = found or f
             corr = corr or c
             thm = thm or t
@@ -168,6 +168,8 @@ def run(chk):
     if thorough or (need_search and not found):
         found = ac.stress_campaign(chk, cfg, "C04", stress_plan([v for v in VARIANTS if v in fams], thorough), 180 if thorough else 60,
                                    "supporting run" if not need_search else "failing-input search") or found
+    if not proof_ok:
+        chk.cov["broken_theorems"] = ac.name_broken_theorems(detail)
     diffrun.conclude(chk, found, corr, thm, proof_ok and driver_ok, detail, "C04 atomic operations")
     try:
         import extract_atomics
@@ -198,15 +200,14 @@ def run(chk):
 
 
 def replay(chk, path):
-    lines = [l.strip() for l in open(path) if l.strip() and not l.startswith("#")]
-    if not lines or not lines[0].startswith("variant "):
-        print("replay file is not an op file (real-thread programs are rerun with harness/stress.c as described in the file)")
+    variant, lines = ac.replay_file(path)
+    if variant not in VARIANTS or not lines or lines[0].startswith("program:"):
+        print("not an op file (real-thread programs are rerun with harness/stress.c as described in the file)")
         return 2
     cfg = pv.repo_config()
     import extract
     extract.run()
     pv.lake_build(["pvdriver"])
-    fam = diffrun.Family("atomics", ac.build_atomics(cfg, lines[0].split()[1]))
-    r = diffrun.judge(fam, lines)
+    r = diffrun.judge(ac.VFamily("atomics", ac.build_atomics(cfg, variant), variant), lines)
     print("agree" if r is None else "%s at op %d: %s" % (r["kind"], r["at"], r["detail"]))
     return 0 if r is None else 1
